@@ -302,6 +302,10 @@ func (ex *Exec) execBlock(st *State, fr *Frame, b *ssa.BasicBlock, pred *ssa.Bas
 			return nil
 		}
 	}
+	if coverBlocks && fr.chain == "" && fr.fn == ex.top && !ex.inDiscovery() {
+		// audit (GOVC_COVER_BLOCKS=1, govc verify only): which basic blocks of the function under proof are reached by a feasible path
+		ex.obligs = append(ex.obligs, &Oblig{Name: ex.oblName(fr, "coverblock", fmt.Sprint(b.Index)), Class: "covercall", Func: ex.topName(), Clause: "block reachable", Hyps: st.pc.list(), Cover: true, st: st.clone(), entry: ex.entry})
+	}
 	li := ex.L.loops(fr.fn)[b]
 	// phi evaluation (simultaneous)
 	var phis []*ssa.Phi
